@@ -119,7 +119,7 @@ theorem crdt_trust_semantics (raw : List (Option Nat)) (ops : List TOp) (self p 
     simp [isTrusted, Gen.crdt, evalGuard, evalFinal, hps]
   unfold trustedAfter trustedAfterCfg stateAfter
   simp only [parseTrusted_eq, List.reverse_nil, List.nil_append]
-  rw [hshape, contains_after_calls Gen.crdt rfl rfl]
+  rw [hshape, contains_after_calls Gen.crdt rfl rfl rfl]
   by_cases hs : raw.contains none = true
   · have : starListed raw = true := hs
     simp only [hs, if_true, this, Bool.true_or]
@@ -130,6 +130,48 @@ theorem crdt_trust_semantics (raw : List (Option Nat)) (ops : List TOp) (self p 
       rw [this, contains_foldl_insert, contains_filterMap_id]
       simp [listedIn]
     simp only [hs, Bool.false_eq_true, if_false, Bool.false_or, hs', hinit]
+
+/-- The join handshake grants nothing: `AddPeer` - what the OPEN endpoint `Cluster.PeerAdd` reaches, so what anybody can
+    trigger - leaves the trusted set alone in both consensus components (regenerated fact). -/
+theorem handshake_endpoint_is_inert : Gen.crdt.addPeerOp = .noop ∧ Gen.raft.addPeerOp = .noop := by decide
+
+/-- Who calls `Trust` / `Distrust` at all (every non-test source of the root, consensus, api, pstoremgr and cmdutils
+    packages): only `setup()` for the configured list. A new caller - an RPC handler, `PeerAdd`, `Join` - breaks this. -/
+theorem trust_changed_only_by_setup : Gen.trustCallers = ["consensus/crdt.setup:Trust"] := by decide
+
+/-- a Trust or Distrust call (not a handshake) -/
+def isTrustCall : TOp → Bool
+  | .handshake _ => false
+  | _ => true
+
+theorem lastCall_filter_calls (ops : List TOp) (p : Nat) : lastCall (ops.filter isTrustCall) p = lastCall ops p := by
+  induction ops with
+  | nil => rfl
+  | cons o rest ih =>
+    cases o with
+    | handshake q =>
+      have h : (TOp.handshake q :: rest).filter isTrustCall = rest.filter isTrustCall := by
+        simp [List.filter_cons, isTrustCall]
+      rw [h, ih]
+      simp only [lastCall]
+      cases lastCall rest p <;> rfl
+    | trust q =>
+      have h : (TOp.trust q :: rest).filter isTrustCall = TOp.trust q :: rest.filter isTrustCall := by
+        simp [List.filter_cons, isTrustCall]
+      rw [h]; simp only [lastCall, ih]
+    | distrust q =>
+      have h : (TOp.distrust q :: rest).filter isTrustCall = TOp.distrust q :: rest.filter isTrustCall := by
+        simp [List.filter_cons, isTrustCall]
+      rw [h]; simp only [lastCall, ih]
+
+/-- Any number of handshakes by any peers, interleaved anywhere with Trust/Distrust calls, leave every peer's trust as
+    it is without them: trust of a remote peer is a function of the configuration and the Trust/Distrust calls only. -/
+theorem handshakes_grant_nothing (raw : List (Option Nat)) (ops : List TOp) (self p : Nat) (hp : p ≠ self) :
+    trustedAfter Gen.crdt raw ops self p = trustedAfter Gen.crdt raw (ops.filter isTrustCall) self p := by
+  rw [crdt_trust_semantics raw ops self p hp, crdt_trust_semantics raw _ self p hp, lastCall_filter_calls]
+
+example : trustedAfter Gen.crdt [some 1] [.handshake 2, .handshake 2] 0 2 = false ∧
+    trustedAfter Gen.crdt [some 1] [.handshake 2, .trust 2] 0 2 = true := by decide
 
 /-- CRDT: a peer always trusts itself. -/
 theorem crdt_self_trusted (cfg : TrustCfg) (ops : List TOp) (self : Nat) :
